@@ -827,4 +827,39 @@ example :
     (evs (runBucket cfg items 30 (List.replicate 6 9007199254740991))).any (fun e => !e.kept) = true := by decide
 
 
+/-! ## group and namespace weights are looked up for every non-zero id -/
+
+/-- weight_lookup_ignores_sign: the weight of a namespace / group partition is the configured weight (clamped to ≥ 1) for
+    EVERY non-zero id — builtin groups and namespaces (negative ids: __default group -4, __builtin -2, __host -3, __default
+    namespace -5) are weighted by their journal-configured weight exactly like user ones; only id 0 ("none") and a missing
+    meta storage fall back to weight 1. -/
+theorem weight_lookup_ignores_sign (cfg : Cfg) (hv : cfg.variant ≠ .posIds) (it : Item) :
+    (it.ns ≠ 0 → nsWeight cfg it = clamp1 (if cfg.hasMeta then it.wNsTab else 0)) ∧
+    (it.grp ≠ 0 → grpWeight cfg it = clamp1 (if cfg.hasMeta then it.wGrpTab else 0)) ∧
+    (nsWeight cfg { it with ns := -it.ns } = nsWeight cfg it) ∧ (grpWeight cfg { it with grp := -it.grp } = grpWeight cfg it) := by
+  have hb : (cfg.variant == Variant.posIds) = false := by
+    cases h : cfg.variant <;> simp_all
+  refine ⟨?_, ?_, ?_, ?_⟩
+  · intro h; simp [nsWeight, idHasWeight, hb, h]
+  · intro h; simp [grpWeight, idHasWeight, hb, h]
+  · simp only [nsWeight, idHasWeight, hb, Bool.false_eq_true, if_false]
+    by_cases h : it.ns = 0 <;> simp [h]
+  · simp only [grpWeight, idHasWeight, hb, Bool.false_eq_true, if_false]
+    by_cases h : it.grp = 0 <;> simp [h]
+
+/-- The seeded guard `ID > 0` (seeded/C06-r5-2, `Variant.posIds`) violates fairness: the __default group (-4) configured with
+    weight 3*128 holds 300 bytes, group 7 (weight 128) holds 500 bytes, budget 400: the share of __default is 400*384/512 = 300,
+    it fits and the code keeps it whole (instance of fits_share_kept) — with the guard its weight falls to 1, its share to
+    400/129 = 3 bytes and its row is sampled away. Oracle signature on the real code: `fits-share-but-sampled`. -/
+def negGroupItems : List Item :=
+  [{ id := 0, size := 300, metric := 1, grp := -4, wGrpTab := 384 }, { id := 1, size := 500, metric := 2, grp := 7, wGrpTab := 128 }]
+
+theorem positive_id_guard_starves_builtin_group :
+    (evs (runBucket { sGroups := true } negGroupItems 400 (List.replicate 6 9007199254740991))).head? =
+      some (keepEv { id := 0, size := 300, metric := 1, grp := -4, wGrpTab := 384 }) ∧
+    ({ id := 0, kept := false, num := 300, den := 3, quota := 300 } : Ev) ∈
+      evs (runBucket { sGroups := true, variant := .posIds } negGroupItems 400 (List.replicate 6 9007199254740991)) := by
+  decide
+
+
 end SH.Sampler
